@@ -1307,6 +1307,13 @@ def history_fails(doc, opts: dict, kind: str, k: int) -> str:
                         return 'error-of-the-file-swallowed'
                     except OSError:
                         pass
+                    except ImplTimeout:
+                        raise
+                    except Exception as e:      # noqa: BLE001
+                        if rep == 0:
+                            break       # the file's error comes out as something else: not this property's business
+                        # an earlier aborted call makes this one fail before it reaches the failing write
+                        return f'second-call-raised:{type(e).__name__}'
             elif kind == 'nonstr-value':
                 leaves = [x for x in nodes if not isinstance(x._value, list)]
                 if not leaves:
